@@ -26,9 +26,12 @@ fn write_irc_string(out: &mut String, config: &Config, spans: &[Span]) {
 fn write_irc_token(out: &mut String, _config: &Config, text: &str, token: FmtToken) {
     let (prefix, postfix) = match token {
         FmtToken::Plain => ("", ""),
-        FmtToken::Error => ("\x0304", "\x03"),
-        FmtToken::Unit | FmtToken::PropName => ("\x0311", "\x03"),
-        FmtToken::Quantity => ("\x0310", "\x03"),
+        // Colors are ended with a reset. A bare ^C followed by text that
+        // starts with digits would be read as another color code, and
+        // the digits would not be shown.
+        FmtToken::Error => ("\x0304", "\x0f"),
+        FmtToken::Unit | FmtToken::PropName => ("\x0311", "\x0f"),
+        FmtToken::Quantity => ("\x0310", "\x0f"),
         FmtToken::Number => ("", ""),
         FmtToken::UserInput => ("\x02", "\x02"),
         FmtToken::ListBegin => ("", ""),
